@@ -129,6 +129,19 @@ CHECKS = {
              "drivers (operations take microseconds)",
         technique="TLA+ model checking (TLC) of the scaled mechanism + slot-exact trace validation at the real constant",
         engine="vstorage"),
+    "C23": dict(
+        level="model_checking",
+        text="SharedRead.tla models FileStorage::read (shared cursor, try_lock, fresh handle on contention, seek and read as separate "
+             "steps): ReadsOwnPosition and SharedHandleExclusive hold exhaustively for 3 readers, and fail when the lock is released "
+             "after the seek (non-vacuity probe). On the real code N threads released by a barrier run read queries on one DbFile "
+             "with hook H3 reporting every storage read of every thread (handle chosen, position, bytes returned, global atomic "
+             "sequence numbers, a yield between seek and read); SharedReadTrace.tla decides every read (bytes = the file's bytes at "
+             "the requested position) and every query (digest = sequential baseline, no failure, no panic).",
+        design="3.8, 4 C23",
+        note="thread schedules on the real code are sampled; the database file does not change during a run; DbFile only (the other "
+             "variants read from memory)",
+        technique="TLA+ model checking (TLC) of the shared-cursor mechanism + trace validation of concurrent reads on the real DbFile",
+        engine="vdb"),
     "C24": dict(
         level="model_checking",
         text='A real agdb_server process (built from /repo) is driven with random multi-user request sequences over the whole documented endpoint table (user and /admin/ API: sessions, users, database add/delete/remove/copy/rename/backup/restore/rollback/clear/convert/optimize/exec/exec_mut/audit, database users) with valid, logged-out, deleted-user and bogus tokens; after every request the complete visible state (users, databases, roles, content, audit, files) is observed through a reserved admin session. ServerTrace.tla decides every request: 2xx only if the token is a live session AND Permitted (the documented table, literally); a rejected request leaves the observed state unchanged; a performed request changes only what its operation may change and role / user / session changes have their documented effect (revocation is immediate because the next request is judged against the updated state).',
@@ -241,7 +254,7 @@ ENGINES = [
     {"name": "vstorage", "path": "harness/vstorage", "serves_properties": ["C01", "C04", "C19"],
      "kind_free_text": "Rust drivers over the real storage layer and hash map (hooks H1, H2); TLC for WalStorage/WalTrace, StorageAlloc/StorageAllocTrace, HashMap/HashMapTrace"},
     {"name": "vdb", "path": "harness/vdb",
-     "serves_properties": ["C02", "C03", "C32", "C05", "C06", "C08", "C09", "C10", "C11", "C12", "C13", "C14", "C15", "C16", "C17", "C18"],
+     "serves_properties": ["C02", "C03", "C23", "C32", "C05", "C06", "C08", "C09", "C10", "C11", "C12", "C13", "C14", "C15", "C16", "C17", "C18"],
      "kind_free_text": "Rust driver recording query histories from the real database (all storage variants); "
                        "TLC for DbModel/DbSearch/DbTrace/MCDb"},
 ]
